@@ -337,6 +337,42 @@ def opReuseParse (args : List String) (impl : String) : Result :=
     | _, _ => noModel
   | _ => noModel
 
+/-- reuse-parse-f json <doc;doc;…>: one parser, refused documents included -/
+def opReuseParseF (args : List String) (impl : String) : Result :=
+  match args with
+  | ["json", docsS] =>
+    match allSome ((docsS.splitOn ";").map (fun d => if d == "-" then some [] else ofHex d)) with
+    | some docs =>
+      let reused := Json.parseDocsF docs
+      let fresh := docs.map (fun d => (Json.parseDocsF [d]).headD "")
+      let model := "/".intercalate reused ++ "|" ++ "/".intercalate fresh
+      let fails :=
+        if isBad impl then [s!"C03 json-parser-{impl} after-a-refused-document"] else
+        match impl.splitOn "|" with
+        | [a, b] =>
+          let as := a.splitOn "/"
+          let bs := b.splitOn "/"
+          let verdictOf (s : String) : String := (s.splitOn ":").headD ""
+          let evsOf (s : String) : String := ":".intercalate ((s.splitOn ":").drop 1)
+          let rec go (i : Nat) (xs ys : List String) (allOk : Bool) : List String :=
+            match xs, ys with
+            | x :: xs', y :: ys' =>
+              let here :=
+                if x == y then [] else
+                  (if verdictOf x == "ok" && verdictOf y != "ok" then
+                     [s!"C04 json-text-a-new-parser-refuses-accepted-after-a-refused-document doc={i}"] else []) ++
+                  (if verdictOf x == "ok" && !(match parseEvs (evsOf x) with | some evs => WF evs | none => false) then
+                     [s!"C09 json-parser-ill-formed-events-on-accepted-input-after-a-refused-document doc={i}"] else []) ++
+                  (if allOk then [s!"C17 json-reused-parser-reports-different-events"] else []) ++
+                  [s!"C04 json-same-text-read-differently-by-a-parser-that-read-other-documents-before"]
+              here ++ go (i + 1) xs' ys' (allOk && verdictOf x == "ok")
+            | _, _ => []
+          go 0 as bs true
+        | _ => []
+      { model := some model, fails := fails }
+    | none => noModel
+  | _ => noModel
+
 /-- escsets: the JSON encoder's escape tables (filled by `init()` in Go) -/
 def opEscSets (impl : String) : Result :=
   let row (f : Nat → Bool) : String := String.ofList ((List.range 128).map fun i => if f i then '1' else '0')
@@ -411,6 +447,7 @@ def runLine (op : String) (impl : String) : Result :=
   | "xcode" :: args => opXcode args impl
   | "reuse-enc" :: args => opReuseEnc args impl
   | "reuse-parse" :: args => opReuseParse args impl
+  | "reuse-parse-f" :: args => opReuseParseF args impl
   | "fold" :: args => opFold args impl
   | "fold-seq" :: args => opFoldSeq args impl
   | "typeinfo" :: args => opTypeInfo args impl
